@@ -61,7 +61,7 @@ class CHECK(core.Check):
                "IEEE rounding itself (rn in the model) is validated by the float cases only; NaN, infinities, "
                "overflow (wrap*2.0) and subnormals are outside the model"]
     PARTIAL = ["C43_float_agrees_partial: the theorems are about exact arithmetic; for binary64 arguments they transfer "
-               "only where no rounding occurs (hypothesis floatDiffers = false). Known finding D43.1: with rounding the "
+               "only where no rounding occurs (hypothesis floatDiffers = false). Known finding D43a: with rounding the "
                "result can be the excluded end of the range and differs from the angle by a non-integral number of turns"]
     TECHNIQUE = "Lean 4 theorems over core Rat (floor lemmas + linear arithmetic) + differential correspondence"
     LEVEL_TEXT = ("Full proofs on the exact model for all rational angles/wraps: C43_wrap1_range_pos/_neg (half-open "
